@@ -133,6 +133,7 @@ func generate(prop, tier, lane string, seed uint64, worker, run int) *Scenario {
 		scn.Strat = genStrategy(r)
 	case "C07":
 		scn.C07 = genC07(r, tier, worker, run)
+		scn.Strat = genStrategy(r)
 	default:
 		fmt.Fprintln(os.Stderr, "unknown property", prop)
 		os.Exit(2)
